@@ -699,10 +699,13 @@ package ggql
 //@           decreases len(sels) - rangeindex
 
 //@ -- user callbacks: each Resolve call counts as a resolver invocation; user code is assumed not to write ggql-owned memory
+//@ -- strategy precedence (C02): the root (any) resolver is consulted only for objects that do not resolve themselves, and
+//@ -- reflection only when neither applies; these are call-site obligations of the dispatch in resolveField / resolveList
 //@ interface Resolver.Resolve
 //@   ghost #res += 1
 //@   assigns fresh
 //@ interface AnyResolver.Resolve
+//@   requires[interface-resolver-first]{C02} !is(obj, Resolver)
 //@   ghost #res += 1
 //@   assigns fresh
 //@ interface ListResolver.Len
@@ -711,7 +714,9 @@ package ggql
 //@   pure
 //@ interface AnyResolver.Len
 //@   pure
+//@   requires[list-resolver-first]{C02} !is(list, ListResolver)
 //@ interface AnyResolver.Nth
+//@   requires[list-resolver-first]{C02} !is(list, ListResolver)
 //@   ghost #res += 1
 //@   assigns fresh
 
@@ -828,7 +833,10 @@ package ggql
 //@           invariant[domain] forall k string {indomain(0, k)} :: indomain(0, k) <==> old(has(asMap(v), k))
 //@           invariant[unchanged] forall k string {asMap(v)[k]} :: asMap(v)[k] == old(asMap(v)[k])
 //@   loop 1: invariant[domain] forall k string {indomain(1, k)} :: indomain(1, k) <==> has(t.fields.dict, k)
-//@           invariant[done] t.meta == nil ==> (forall k string {seen(1, k)} :: seen(1, k) ==> (old(asMap(v)[k]) == nil && inFld(t, k).Default != nil ==> asMap(v)[k] != nil && (!isColl(inFld(t, k).Default) ==> asMap(v)[k] == inFld(t, k).Default) && (isColl(inFld(t, k).Default) ==> asMap(v)[k] != inFld(t, k).Default) && (is(inFld(t, k).Default, map[string]interface{}) ==> is(asMap(v)[k], map[string]interface{})) && (is(inFld(t, k).Default, []interface{}) ==> is(asMap(v)[k], []interface{}))) && (is(inFld(t, k).Type, *NonNull) ==> asMap(v)[k] != nil) && (old(asMap(v)[k]) != nil ==> conformsIn(asMap(v)[k], inFld(t, k).Type)) && !(inFld(t, k).Default == nil && is(inFld(t, k).Type, *NonNull) && old(asMap(v)[k]) == nil))
+//@           invariant[done-default] t.meta == nil ==> (forall k string {seen(1, k)} :: seen(1, k) && old(asMap(v)[k]) == nil && inFld(t, k).Default != nil ==> asMap(v)[k] != nil && (!isColl(inFld(t, k).Default) ==> asMap(v)[k] == inFld(t, k).Default) && (isColl(inFld(t, k).Default) ==> asMap(v)[k] != inFld(t, k).Default) && (is(inFld(t, k).Default, map[string]interface{}) ==> is(asMap(v)[k], map[string]interface{})) && (is(inFld(t, k).Default, []interface{}) ==> is(asMap(v)[k], []interface{})))
+//@           invariant[done-non-null] t.meta == nil ==> (forall k string {seen(1, k)} :: seen(1, k) && is(inFld(t, k).Type, *NonNull) ==> asMap(v)[k] != nil)
+//@           invariant[done-coerced] t.meta == nil ==> (forall k string {seen(1, k)} :: seen(1, k) && old(asMap(v)[k]) != nil ==> conformsIn(asMap(v)[k], inFld(t, k).Type))
+//@           invariant[done-required] t.meta == nil ==> (forall k string {seen(1, k)} :: seen(1, k) ==> !(inFld(t, k).Default == nil && is(inFld(t, k).Type, *NonNull) && old(asMap(v)[k]) == nil))
 //@           invariant[todo] forall k string {seen(1, k)} :: !seen(1, k) ==> asMap(v)[k] == old(asMap(v)[k]) && (has(asMap(v), k) <==> old(has(asMap(v), k)))
 //@           invariant[fields-kept] forall k string {inFld(t, k)} :: inFld(t, k) == old(inFld(t, k))
 
@@ -990,7 +998,7 @@ package ggql
 //@   ensures[key-frame]{C01} forall k string :: k != fkey(field) ==> (has(result, k) <==> old(has(result, k))) && result[k] == old(result[k])
 //@   ensures[typename]{C01} old(field.ConType) != nil && field.Name == "__typename" ==> has(result, fkey(field)) && result[fkey(field)] == box(t.Name()) && len(ea) == 0 && #res == old(#res)
 //@   ensures[declared-leaf-type]{C05} depth > 0 && old(field.ConType) != nil && !isMetaName(field.Name) && old(fdOf(t, field.Name)) != nil && isLeafT(old(fdOf(t, field.Name).Type)) && len(ea) == 0 && has(result, fkey(field)) && result[fkey(field)] != nil ==> conformsOut(result[fkey(field)], old(fdOf(t, field.Name).Type))
-//@   ensures[required-arg-missing-no-call]{C04} old(field.ConType) != nil && !isMetaName(field.Name) && old(fdOf(t, field.Name)) != nil && (is(obj, Resolver) || root.AnyResolver != nil) && (exists k string :: old(nonNullArg(fdOf(t, field.Name), k)) && !old(suppliedUpTo(field.Args, k, len(field.Args)))) ==> len(ea) > 0 && #res == old(#res)
+//@   ensures[required-arg-missing-no-call]{C04,C02} old(field.ConType) != nil && !isMetaName(field.Name) && old(fdOf(t, field.Name)) != nil && (is(obj, Resolver) || root.AnyResolver != nil) && (exists k string :: old(nonNullArg(fdOf(t, field.Name), k)) && !old(suppliedUpTo(field.Args, k, len(field.Args)))) ==> len(ea) > 0 && #res == old(#res)
 //@   ensures[undefined-field]{C10} old(field.ConType) != nil && !isMetaName(field.Name) && old(fdOf(t, field.Name)) == nil ==> len(ea) > 0 && #res == old(#res) && (has(result, fkey(field)) <==> old(has(result, fkey(field)))) && result[fkey(field)] == old(result[fkey(field)])
 //@   assigns fresh, result, H_Field.ConType, H_Object.meta, H_FieldDef.goField, H_FieldDef.method, H_FieldDef.args, held, #res
 //@   ensures[locks-balanced]{C12,C20} held == old(held)
